@@ -89,6 +89,53 @@ def _m(table, key, what):
     return table[key]
 
 
+
+def _phrase_folded_by_behaviour(repo: Path) -> bool:
+    """Whether an excluded search phrase is compared case-insensitively — read off the REAL `SharesManager.query` on a
+    one-file index: `True` when a phrase excludes the file in any casing, `False` when only its lower-case spelling does
+    (the pre-fix behaviour the model also knows); anything else is not one of the two behaviours the model has."""
+    import asyncio
+    import importlib
+    import inspect
+    import shutil
+    import tempfile
+    mod = importlib.import_module('aioslsk.shares.manager')
+    src = repo / 'src/aioslsk/shares/manager.py'
+    if Path(inspect.getsourcefile(mod)).resolve() != src.resolve():
+        raise TranslateError(f'aioslsk.shares.manager is imported from {mod.__file__}, not from {src}')
+    from aioslsk.events import EventBus
+    from aioslsk.settings import Settings
+    tmp = tempfile.mkdtemp(prefix='c08-phrase-')
+    try:
+        d = Path(tmp) / 'Music'
+        (d / 'Live Set').mkdir(parents=True)
+        (d / 'Live Set' / 'Abc Def song.mp3').write_bytes(b'x')
+        (d / 'Live Set' / 'other song.mp3').write_bytes(b'x')
+        mgr = mod.SharesManager(Settings(credentials={'username': 'u', 'password': 'p'}), EventBus(), None)
+        loop = asyncio.new_event_loop()
+        try:
+            sd = mgr.add_shared_directory(str(d))
+            loop.run_until_complete(mgr.scan_directory_files(sd))
+        finally:
+            loop.close()
+
+        def names(phrases):
+            res, locked = mgr.query('song', excluded_search_phrases=phrases)
+            return sorted(i.filename for i in list(res) + list(locked))
+        both, other = ['Abc Def song.mp3', 'other song.mp3'], ['other song.mp3']
+        if names(None) != both or names([]) != both or names(['zzz']) != both:
+            raise TranslateError('SharesManager.query: the probe index does not answer a plain query as expected')
+        lower, upper, mixed = names(['abc def']), names(['ABC DEF']), names(['aBc dEf'])
+        if lower == other and upper == other and mixed == other:
+            return True
+        if lower == other and upper == both and mixed == both:
+            return False
+        raise TranslateError(f'SharesManager.query: excluded phrases behave like neither model variant '
+                             f'(lower {lower}, upper {upper}, mixed {mixed})')
+    finally:
+        shutil.rmtree(tmp, ignore_errors=True)
+
+
 def extract(repo: Path) -> dict:
     out: dict = {}
     tm = ast.parse((repo / 'src/aioslsk/transfer/manager.py').read_text())
@@ -240,15 +287,21 @@ def extract(repo: Path) -> dict:
     sh = ast.parse((repo / 'src/aioslsk/shares/manager.py').read_text())
     q = _func(sh, 'query')
     loops = [n for n in ast.walk(q) if isinstance(n, ast.For) and _src(n.target) == 'excl_phrase']
-    if len(loops) != 1 or len(loops[0].body) != 1 or not isinstance(loops[0].body[0], ast.If):
-        raise TranslateError('SharesManager.query: excluded-phrase loop not understood')
-    test = _src(loops[0].body[0].test)
+    test = _src(loops[0].body[0].test) if (len(loops) == 1 and len(loops[0].body) == 1
+                                           and isinstance(loops[0].body[0], ast.If)) else None
     if test == 'excl_phrase.lower() in found_item.get_query_path().lower()':
         out['phrase_folded'] = True
     elif test == 'excl_phrase in found_item.get_query_path().lower()':
         out['phrase_folded'] = False
     else:
-        raise TranslateError(f'SharesManager.query: excluded-phrase test not understood: {test!r}')
+        # a rewrite of the loop (a helper, a local for the path, a comprehension): ask the real code
+        shape_error = f'SharesManager.query: excluded-phrase test not understood: {test!r}'
+        try:
+            out['phrase_folded'] = _phrase_folded_by_behaviour(repo)
+        except TranslateError as e:
+            raise TranslateError(f'{shape_error}; and: {e}')
+        except Exception as e:  # noqa: BLE001
+            raise TranslateError(f'{shape_error}; behavioural probe failed: {e!r}')
 
     # ---- constants -----------------------------------------------------------------------------------
     um = ast.parse((repo / 'src/aioslsk/user/model.py').read_text())
